@@ -34,8 +34,8 @@ type c04Case struct {
 	ChildDeleting bool
 	CachedParent  string // "alive" or "deleting"
 	LiveParent    string
-	LiveReplaced  bool // the live object was deleted and recreated under the same name (new UID, labels that do not match)
-	Revision      bool // the object is a ControllerRevision (rolling strategy) instead of a child
+	LiveReplaced  bool   // the live object was deleted and recreated under the same name (new UID, labels that do not match)
+	Revision      bool   // the object is a ControllerRevision (rolling strategy) instead of a child
 	DesiredLabels string // labels the hook puts on a new desired child: "match" or "nomatch"
 }
 
@@ -378,7 +378,9 @@ func c04Race(r *mc.Report, bound int) {
 		}))
 		w.DeliverAll()
 		w.Sim.ResetLog()
-		w.Sim.Gate = func(verb string, k *sim.Kind, ns, name, sub string) { s.Yield(verb + " " + k.Resource + " " + name + " " + sub) }
+		w.Sim.Gate = func(verb string, k *sim.Kind, ns, name, sub string) {
+			s.Yield(verb + " " + k.Resource + " " + name + " " + sub)
+		}
 		errs := make([]error, 2)
 		threads := []func(){
 			func() { errs[0] = w.PC.sync("n1/p1") },
